@@ -2,7 +2,7 @@
    The evmap is modelled as (vis, pend): `update`/`empty` append to pend, `refresh` applies pend to vis;
    readers see vis.  Every delivery is recorded together with vis at that instant. *)
 From Coq Require Import List NArith Bool.
-From AdltV Require Import Lifecycle.Model Lifecycle.ForwardProofs Lifecycle.PublishProofs Exec.Lifecycle.
+From AdltV Require Import Lifecycle.Model Lifecycle.ForwardProofs Lifecycle.PublishProofs Lifecycle.MonotoneProofs Exec.Lifecycle.
 Import ListNotations.
 Open Scope N_scope.
 
@@ -28,6 +28,14 @@ Proof.
   destruct (run_ok _ _ _ _ (Inv6_init _ _ Hpre) Hrun) as [HI _]. exact (i_pub d HI L HL Hb).
 Qed.
 
+(* ... and it stays so: in EVERY later state of the run (whatever else arrives, merges or is refreshed afterwards) the
+   lifecycle of every message delivered so far is visible to readers with that message's ECU - a reader in another thread
+   or a slow consumer that looks the id up later still finds it (runs from an empty table) *)
+Theorem C06_visible_monotone : forall first_id ms d o,
+  0 < first_id -> run (init first_id []) ms = (d, o) ->
+  forall x, In x (map fst o) -> exists L0, tbl_get (m_lc x) (vis d) = Some L0 /\ l_ecu L0 = m_ecu x.
+Proof. exact delivered_stay_visible. Qed.
+
 (* non-vacuity: in the example stream of C05 a lifecycle is published by a mid-stream confirmation while
    messages are still queued; all six deliveries see their lifecycle *)
 Example C06_nonvacuous :
@@ -40,4 +48,5 @@ Proof. vm_compute. reflexivity. Qed.
 
 Print Assumptions C06_published_before_delivery.
 Print Assumptions C06_invariant_reachable.
+Print Assumptions C06_visible_monotone.
 Print Assumptions C06_nonvacuous.
